@@ -356,12 +356,15 @@ def r_result_lock(e, R):
     g = e.cfg(put)
     dumps = [n for n in g.nodes for c in calls_in(n) if e.callees_of(c) & {"loky.backend.reduction:dumps"}]
     sends = [n for n in g.nodes for c in calls_in(n) if isinstance(c.func, ast.Attribute) and c.func.attr == "send_bytes"]
-    withs = [n for n in g.nodes if n.kind == "with_enter" and norm(n.ast.context_expr).endswith("_wlock")]
+    def wl(x):
+        # the write-lock field, read directly or through a local alias assigned once from it
+        return norm(inline_locals(e, put, x)).endswith("_wlock")
+    withs = [n for n in g.nodes if n.kind == "with_enter" and wl(n.ast.context_expr)]
     R.check(bool(dumps) and bool(sends) and all(any(g.dominates(d, s_) for d in dumps) for s_ in sends) and
             all(all(g.dominates(d, w_) for d in dumps) for w_ in withs), "R-PAIR", "SimpleQueue.put: serialises before taking the write lock", put.short,
             "dumps before `with self._wlock`", "results are pickled while holding the result pipe's write lock (a failing/slow pickling blocks every worker)",
             e.loc(put, put.node))
-    none_t = [t for t in g.nodes if t.kind == "test" and none_test(t.ast) and norm(none_test(t.ast)[0]).endswith("_wlock")]
+    none_t = [t for t in g.nodes if t.kind == "test" and none_test(t.ast) and wl(none_test(t.ast)[0])]
     locked = [s_ for s_ in sends if any(g.dominates(w_, s_) for w_ in withs)]
     unlocked = [s_ for s_ in sends if s_ not in locked]
     ok = bool(locked) and all(any(g.on_branch(u, t, "F" if none_test(t.ast)[1] == "T" else "T") for t in none_t) for u in unlocked)
